@@ -595,10 +595,29 @@ func (x *Exec) heapLoad(st *State, p PtrV) Value {
 			// views stored in the heap are normalised to offset 0 (see rebase)
 			return IntLit(0)
 		}
-		return Select(st.heapArr(p.Prefix+li.Path, li.Sort), p.Addr)
+		t := Select(st.heapArr(p.Prefix+li.Path, li.Sort), p.Addr)
+		x.assumeLeaf(st, li, t)
+		return t
 	})
-	x.assumeLoaded(st, v)
 	return v
+}
+
+// assumeLeaf records the well-formedness of one loaded leaf: machine-integer
+// range, non-negative bounded lengths, non-negative identities.
+func (x *Exec) assumeLeaf(st *State, li leafInfo, t *Term) {
+	if t.IsConst() {
+		return
+	}
+	switch li.Kind {
+	case "int":
+		if k, ok := basicIntKind(li.Basic); ok {
+			st.assumeRaw(inRange(k, t))
+		}
+	case "len", "off":
+		st.assumeRaw(And(Le(IntLit(0), t), Le(t, IntLit(1<<40))))
+	case "ptr", "map", "opaque", "func", "base":
+		st.assumeRaw(Le(IntLit(0), t))
+	}
 }
 
 func isZeroLit(t *Term) bool { return t.Op == "int" && t.Int.Sign() == 0 }
@@ -794,9 +813,10 @@ func (x *Exec) mapGet(st *State, m MapV, key *Term) (Value, *Term) {
 			return IntLit(0)
 		}
 		stored := Select(Select(st.heapArr(ks+li.Path, ArrOf(li.Sort)), m.ID), key)
-		return Ite(pres, stored, zero[li.Path])
+		t := Ite(pres, stored, zero[li.Path])
+		x.assumeLeaf(st, li, t)
+		return t
 	})
-	x.assumeLoaded(st, v)
 	if p, ok := v.(PtrV); ok {
 		x.assumeAllocated(st, p.Addr)
 	}
@@ -1763,7 +1783,7 @@ func (x *Exec) linkLiteralEq(st *State, a, b StrV, eq *Term) {
 	}
 	_, la := strLitOf(a)
 	_, lb := strLitOf(b)
-	if la == lb {
+	if la && lb {
 		return
 	}
 	st.assumeRaw(Eq(eq, Eq(x.strID(st, a), x.strID(st, b))))
